@@ -14,6 +14,8 @@ def opts(r):
         o['repeat'] = r.choice([2, 3])
     if r.random() < 0.25:
         o['buffer'] = True
+    if r.random() < 0.3:
+        o['color'] = True
     return o
 
 
